@@ -46,6 +46,7 @@ type scen struct {
 	collID [2]uint32
 	log    []string
 
+	wantCompositeUnique bool // this case asks for a unique index over several fields (a third of the cases)
 	uniqueTainted bool // a duplicate was admitted: equal tuples are in the collection, later writes are not blamed for them
 }
 
@@ -198,6 +199,7 @@ func runCase(c *fw.Ctx, sp caseSpec) {
 	s.r = c.Rand(fmt.Sprintf("c19/case/%d/workload", sp.Index))
 	s.qr = c.Rand(fmt.Sprintf("c19/case/%d/queries", sp.Index))
 	s.byID[0], s.byID[1] = map[string]*mdoc{}, map[string]*mdoc{}
+	s.wantCompositeUnique = sp.Index%3 == 1
 	dir := c.Dir("coll")
 	defer os.RemoveAll(dir)
 	var err error
@@ -287,21 +289,33 @@ func (s *scen) planIndexes(r *rand.Rand, initial bool) []*idxDef {
 			continue
 		}
 		ix := &idxDef{Fields: []string{f.Name}, Later: !initial}
-		if !uniqueDone && f.Type != protomodel.FieldType_BOOLEAN && r.IntN(4) == 0 {
+		if !uniqueDone && !s.wantCompositeUnique && f.Type != protomodel.FieldType_BOOLEAN && r.IntN(4) == 0 {
 			ix.Unique = true
 			uniqueDone = true
 		}
 		out = append(out, ix)
 		have[ix.key()] = true
 	}
-	if len(s.fields) >= 2 && r.IntN(5) < 2 {
-		a, b := s.fields[r.IntN(len(s.fields))], s.fields[r.IntN(len(s.fields))]
-		// at most one STRING column per index: two padded 512-byte keys exceed the engine's key length limit
-		if a != b && !(a.Type == protomodel.FieldType_STRING && b.Type == protomodel.FieldType_STRING) {
-			ix := &idxDef{Fields: []string{a.Name, b.Name}, Later: !initial, Unique: !uniqueDone && r.IntN(4) == 0}
+	if len(s.fields) >= 2 && (r.IntN(5) < 2 || s.wantCompositeUnique) {
+		for try := 0; try < 8; try++ {
+			a, b := s.fields[r.IntN(len(s.fields))], s.fields[r.IntN(len(s.fields))]
+			// at most one STRING column per index: two padded 512-byte keys exceed the engine's key length limit
+			if a == b || (a.Type == protomodel.FieldType_STRING && b.Type == protomodel.FieldType_STRING) {
+				if s.wantCompositeUnique {
+					continue
+				}
+				break
+			}
+			ix := &idxDef{Fields: []string{a.Name, b.Name}, Later: !initial, Unique: !uniqueDone && (r.IntN(4) == 0 || s.wantCompositeUnique)}
+			if s.wantCompositeUnique && len(s.fields) >= 3 && r.IntN(2) == 0 {
+				if c := s.fields[r.IntN(len(s.fields))]; c != a && c != b && c.Type != protomodel.FieldType_STRING {
+					ix.Fields = append(ix.Fields, c.Name)
+				}
+			}
 			if !have[ix.key()] {
 				out = append(out, ix)
 			}
+			break
 		}
 	}
 	return out
@@ -661,7 +675,55 @@ func (s *scen) idQuery(twin int, d *mdoc) *protomodel.Query {
 	return s.build(&hquery{Groups: [][]qcmp{{{Field: idField, Op: protomodel.ComparisonOperator_EQ, Doc: d.n}}}}, twin)
 }
 
+// compositeUnique: a unique index over two or more fields, if the schema has one.
+func (s *scen) compositeUnique() *idxDef {
+	for _, ix := range s.indexes {
+		if ix.Unique && len(ix.Fields) > 1 {
+			return ix
+		}
+	}
+	return nil
+}
+
+// opReplaceNearDup: a live document is first given a proper part of another live document's tuple under a
+// composite unique index (legitimate), then the rest of it (must be refused); the part kept between the two
+// steps is each non-empty proper subset of the index fields in turn (first only, last only, ...).
+func (s *scen) opReplaceNearDup() bool {
+	ix := s.compositeUnique()
+	live := s.liveDocs()
+	if ix == nil || len(live) < 2 {
+		return false
+	}
+	d := live[s.r.IntN(len(live))]
+	dup := live[s.r.IntN(len(live))]
+	if d == dup {
+		return false
+	}
+	mask := 1 + s.r.IntN(1<<len(ix.Fields)-2) // non-empty, proper
+	only := map[string]bool{}
+	for i, f := range ix.Fields {
+		if mask&(1<<i) != 0 {
+			only[f] = true
+		}
+	}
+	hq := &hquery{Groups: [][]qcmp{{{Field: idField, Op: protomodel.ComparisonOperator_EQ, Doc: d.n}}}}
+	for stepN, nd := range []*structpb.Struct{s.genDocCopying(s.r, dup, only), s.genDoc(s.r, dup)} {
+		if s.dead || !d.live() || !dup.live() {
+			return true
+		}
+		nd := nd
+		s.c.Distinct(fmt.Sprintf("replace-near-dup|fields=%d|kept-mask=%d|step=%d", len(ix.Fields), mask, stepN))
+		s.replace("replace-by-id", func(twin int) (*protomodel.Query, *structpb.Struct) {
+			return s.idQuery(twin, d), nd
+		}, nd, hq)
+	}
+	return true
+}
+
 func (s *scen) opReplaceByID() {
+	if s.r.IntN(3) == 0 && s.opReplaceNearDup() {
+		return
+	}
 	d := s.pickDoc(s.r)
 	if d == nil {
 		return
